@@ -826,8 +826,8 @@ func (g *c13Gen) longCase(id int) *c13Case {
 		c.Streams = append(c.Streams, [2]uint32{uint32(1 + r.intn(6)), 0})
 	}
 	target := 38000 + r.intn(30000)
-	if r.chance(15) {
-		target = 70000 + r.intn(60000) // several fill / compact cycles
+	if r.chance(15) && venvInt("VERIF_LONG_BIG", 0) != 0 {
+		target = 70000 + r.intn(60000) // several fill / compact cycles (thorough tier: costly in the model comparison)
 	}
 	var data []byte
 	var bounds []int
